@@ -483,25 +483,42 @@ def mixture_alternation(model, y, emb, init, saliency, iterations, opt):
             return Skip('a class collapsed (ill-conditioned parameters): comparison dominated by rounding')
         if iterations == 1:
             return Fail(bad[0], bad[1])
-        # step-wise form
-        prev = tu.call_mixture(model, y.copy(), init.copy(), sal, iterations - 1, opt, emb)
-        if tu.ill_conditioned(model, m) or tu.ill_conditioned(model, prev):
-            return Skip('a class collapsed (ill-conditioned parameters): comparison dominated by rounding')
-        w, params, spec, cacg, margin = _oracle_fit(model, y, emb, init, saliency, 1, opt, lead, start=prev)
-        if margin < 1e-7:
-            return Skip('alignment decision within rounding')
-        bad2 = _compare_fit(model, m, lead, K, opt, w, params, spec, cacg, 1e-7, iterations)
-        if bad2 is None:
-            return None
-        if bad2[0] == 'skip':
-            return Skip(bad2[1])
-        if model == 'vmfcacgmm':
-            w2, p2, spec2, cacg2, _ = _oracle_fit(model, y, emb, init, saliency, 1, opt, lead, start=prev, normalise_embedding=False)
-            if _compare_fit(model, m, lead, K, opt, w2, p2, spec2, cacg2, 1e-7, iterations) is None:
-                return Fail('vmfcacgmm-embedding-not-normalised', 'VMFCACGMMTrainer.fit feeds the embedding to the vMF M-step '
-                            'without the unit normalisation that VMFCACGMM.predict / VonMisesFisherTrainer.fit apply: '
-                            + bad2[1])
-        return Fail(bad2[0], 'step-wise: ' + bad2[1] + ' | end-to-end: ' + bad[1])
+        # step-wise form, for EVERY step i-1 -> i of the history (a wrong update in an early iteration - e.g. the first
+        # non-identity alignment - is invisible in the last step once the class order has become consistent)
+        cur = m
+        skip_reason = None
+        for i in range(iterations, 1, -1):
+            prev = tu.call_mixture(model, y.copy(), init.copy(), sal, i - 1, opt, emb)
+            if tu.ill_conditioned(model, cur) or tu.ill_conditioned(model, prev):
+                skip_reason = skip_reason or 'a class collapsed (ill-conditioned parameters): comparison dominated by rounding'
+                cur = prev
+                continue
+            w, params, spec, cacg, margin = _oracle_fit(model, y, emb, init, saliency, 1, opt, lead, start=prev)
+            if margin < 1e-7:
+                skip_reason = skip_reason or 'alignment decision within rounding'
+                cur = prev
+                continue
+            bad2 = _compare_fit(model, cur, lead, K, opt, w, params, spec, cacg, 1e-7, i)
+            if bad2 is not None and bad2[0] == 'skip':
+                skip_reason = skip_reason or bad2[1]
+            elif bad2 is not None:
+                if model == 'vmfcacgmm':
+                    w2, p2, spec2, cacg2, _ = _oracle_fit(model, y, emb, init, saliency, 1, opt, lead, start=prev,
+                                                          normalise_embedding=False)
+                    if _compare_fit(model, cur, lead, K, opt, w2, p2, spec2, cacg2, 1e-7, i) is None:
+                        return Fail('vmfcacgmm-embedding-not-normalised', 'VMFCACGMMTrainer.fit feeds the embedding to the '
+                                    'vMF M-step without the unit normalisation that VMFCACGMM.predict / '
+                                    'VonMisesFisherTrainer.fit apply: ' + bad2[1])
+                return Fail(bad2[0], f'step-wise (iteration {i - 1} -> {i}): ' + bad2[1] + ' | end-to-end: ' + bad[1])
+            cur = prev
+        # the first iterate is the oracle M-step on the start value
+        w, params, spec, cacg, _ = _oracle_fit(model, y, emb, init, saliency, 1, opt, lead)
+        bad1 = _compare_fit(model, cur, lead, K, opt, w, params, spec, cacg, 1e-7, 1)
+        if bad1 is not None and bad1[0] != 'skip' and not tu.ill_conditioned(model, cur):
+            return Fail(bad1[0], 'step-wise (start value -> iteration 1): ' + bad1[1] + ' | end-to-end: ' + bad[1])
+        if skip_reason:
+            return Skip(skip_reason)
+        return None
     except (np.linalg.LinAlgError, FloatingPointError, ValueError, ZeroDivisionError) as e:
         return Skip(f'oracle not evaluable: {type(e).__name__}')
 
@@ -549,6 +566,8 @@ def gen_aligner(rng, F):
 
 def gen_mixture_case(rng, model, n_max=8, want_align=None, integer_saliency=False):
     K = int(rng.integers(2, 4))
+    if want_align and rng.random() < 0.8:
+        K = int(rng.integers(3, 5))      # non-involutive mappings (3-cycles) need K >= 3
     if model in ('gcacgmm', 'vmfcacgmm'):
         F = int(rng.integers(1, 4))
         T = int(rng.integers(6, 11))
@@ -565,7 +584,7 @@ def gen_mixture_case(rng, model, n_max=8, want_align=None, integer_saliency=Fals
     lead = rng.random() < 0.6 or bool(want_align)
     F = int(rng.integers(1, 4)) if lead else 1
     if want_align:
-        F = int(rng.choice([2, 3, 3, 5]))
+        F = int(rng.choice([1, 3, 5, 5, 7]))      # both aligners assert an odd number of bins
     D = int(rng.integers(2, 4))
     N = int(rng.integers(4 * D, 6 * D + 1)) if model == 'gmm' else int(rng.integers(D + 1, 3 * D + 4))
     if model == 'cbmm':
@@ -583,6 +602,17 @@ def gen_mixture_case(rng, model, n_max=8, want_align=None, integer_saliency=Fals
             opt['aligner'] = gen_aligner(rng, F)
             if opt['aligner']['kind'] == 'dhtv' and F % 2 == 0:     # the DHTV aligner asserts an odd number of bins
                 opt['aligner'] = {'kind': 'greedy', 'metric': opt['aligner']['metric']}
+            if rng.random() < 0.85 and cplx:
+                # separable classes whose order is permuted per bin in the start value: the aligner then has real work to
+                # do (non-identity, for K >= 3 also non-involutive mappings such as 3-cycles)
+                N = max(N, 4 * K)
+                lab = rng.integers(0, K, size=N)
+                lab[:K] = np.arange(K)
+                proto = tu.gen_complex(rng, (F, K, D))
+                y = proto[:, lab, :] + 0.15 * tu.gen_complex(rng, (F, N, D))
+                truth = np.moveaxis(np.eye(K)[lab], -1, 0)                       # (K, N)
+                init = np.stack([truth[rng.permutation(K)] for _ in range(F)])   # (F, K, N), class order permuted per bin
+                init = 0.9 * init + 0.1 / K
     sal, skind = tu.gen_saliency(rng, (F, N), 'none' if integer_saliency else None)
     if not lead:
         y, init = y[0], init[0]
@@ -718,8 +748,10 @@ def search(ctx):
         if ctx.out_of_time():
             break
         model = tu.MODELS[i % 7]
-        case, skind = gen_mixture_case(rng, model, want_align=(i % 3 == 0) if model in ('cwmm', 'cacgmm', 'cbmm') else None)
+        case, skind = gen_mixture_case(rng, model, want_align=((i // 7) % 3 != 2) if model in ('cwmm', 'cacgmm', 'cbmm') else None)
         case['iterations'] = 1 + (i // 7) % 8
+        if 'aligner' in case['opt'] and case['iterations'] == 1:
+            case['iterations'] = 2 + (i // 7) % 3        # the aligner first acts in the second iteration
         ctx.count(f'alternation-{model}-n{case["iterations"]}')
         ctx.count(f'alternation-{model}-align:{"aligner" in case["opt"] or bool(case["opt"].get("inline_permutation_alignment"))}')
         ok = ctx.run(mixture_alternation, **case)
